@@ -70,9 +70,13 @@ def main(inp, outp):
                 res["violations"].append({"key": key, "what": what, "data": data})
 
     rng = np.random.default_rng(job["seed"])
-    for sma in job["smas"]:
+    for si, sma in enumerate(job["smas"]):
+        # both propagators exist before any chaser orbit is created by the frame name "Hill" (which designates the Hill frame created
+        # last): a propagator works in ITS OWN frame, whatever frame object the name resolved to - creation order alternates
+        order = ("QSW", "TNW") if si % 2 == 0 else ("TNW", "QSW")
+        props = {o_: ClohessyWiltshire(sma, frame=HillFrame(orientation=o_)) for o_ in order}
         for orient in ("QSW", "TNW"):
-            prop = ClohessyWiltshire(sma, frame=HillFrame(orientation=orient))
+            prop = props[orient]
             n = prop.n
             n_spec = np.sqrt(Earth.mu / sma ** 3)
             clause("mean motion of the target is sqrt(mu / a^3)", abs(n - n_spec) <= 1e-12 * n_spec, "cw/n", f"n={n} vs {n_spec}", {"sma": sma})
@@ -83,7 +87,7 @@ def main(inp, outp):
                 t = tau / n
                 date = EPOCH + timedelta(seconds=t)
                 treal = (date - EPOCH).total_seconds()
-                data = {"sma": sma, "orientation": orient, "t_s": t, "how": "ClohessyWiltshire(sma, HillFrame(orient)); Orbit(unit state, "
+                data = {"sma": sma, "orientation": orient, "t_s": t, "creation_order": list(order), "how": "both ClohessyWiltshire(sma, HillFrame(orient)) created first, in creation_order; Orbit(unit state, "
                         "EPOCH, cartesian, Hill, prop).propagate(EPOCH + t)"}
                 M = np.zeros((6, 6))
                 for j in range(6):
